@@ -76,6 +76,7 @@ pub fn generated_loads(repo: &str, verif_seed: u64, family: &str, k: u64) -> boo
         "shared_header" => Family::SharedHeader,
         "jbig_cycle" => Family::JbigCycle,
         "long_parents" => Family::LongParents,
+        "icc_cycle" => Family::IccCycle,
         _ => Family::Rich,
     };
     let mut pool = Pool::new(repo, verif_seed);
